@@ -28,7 +28,7 @@ CLI_RULE = ("cli stream (end to end): 1-3 assets written as a real .ods + .ini p
             "(cells -> parser -> engine -> generators -> files); non-trivial = exit 0 with >= 3 report rows, or a faulty invocation rejected; distinct by content hash")
 
 PROPS = {
-    "C01": {"streams": [S("engine", 2000, 160000, ["fractions"])], "rule": ENGINE_RULE,
+    "C01": {"streams": [S("engine", 2000, 160000, ["fractions"]), S("cli", 40, 1200, ["exit", "detail", "model"])], "rule": ENGINE_RULE,
             "assumptions": ["hypothesis SameInstantSameYear (finding F7): events at one instant share a local year"],
             "technique": "Lean 4 refinement proof (engine with heaps/cache/indices = greedy spec) + regenerated sort-key table + differential correspondence",
             "text": "Theorem engine_eq_spec / best_lot: for all histories, methods and schedules the engine model takes every piece from the best-ranked available lot; "
@@ -47,7 +47,8 @@ PROPS = {
             "text": "Theorems proceeds/cost/gain formulas, supplied-over-computed, parts_add_to_whole (exact), two_roundings_bound, round_half_even_err; "
                     "every proceeds/cost/gain figure of generated histories is compared with the model as an exact rational, and with exact Fraction arithmetic by the oracle.",
             "design_ref": "DESIGN.md §3 C04"},
-    "C05": {"streams": [S("pipeline", 1200, 60000, ["long", "status-crash"]), S("reports", 40, 2000, ["detail", "taxreport", "taxsheet", "status"])],
+    "C05": {"streams": [S("pipeline", 1200, 60000, ["long", "status-crash"]), S("reports", 40, 2000, ["detail", "taxreport", "taxsheet", "status"]),
+                        S("cli", 24, 1000, ["exit", "detail", "model"])],
             "rule": PIPE_RULE + "; C05: holding periods placed at k*period days +-{0,1us,1s}; reports stream for C05: LONG/SHORT cells of rp2_full_report.ods, tax_report_us.ods and tax_report_ie.ods (multi-asset, colliding row numbers)", "assumptions": [],
             "technique": "Lean 4 proof: isLong iff period*86400e6 <= instant difference; regenerated country table; correspondence on threshold pairs",
             "text": "Theorems long_iff, income_short, never_long on the model's Fraction.isLong; Gen.Countries periods decided; pipeline stream with threshold-seeking generator.",
@@ -72,7 +73,7 @@ PROPS = {
             "technique": "Lean 4 proof: prefix theorem on the greedy spec (later lots/events cannot change earlier fractions) carried to the engine by refinement; correspondence on (history, truncated history) pairs",
             "text": "Theorem earlier_fractions_unchanged (runS_prefix); oracle compares the to-date-limited run with the run on the truncated history, on the real code.",
             "design_ref": "DESIGN.md §3 C09"},
-    "C10": {"streams": [S("pipeline", 800, 40000, ["views", "fractions", "figures", "numbering", "yearly", "balances", "price", "sums", "status-crash"])], "rule": PIPE_RULE,
+    "C10": {"streams": [S("pipeline", 800, 40000, ["views", "fractions", "figures", "numbering", "yearly", "balances", "price", "sums", "status-crash"]), S("cli", 40, 1200, ["exit", "detail", "inout", "model"])], "rule": PIPE_RULE,
             "assumptions": ["hypothesis LocalDatesMonotone (F6)"],
             "technique": "Lean 4 proof: a window view is the filter by [from,to] under monotone local dates; correspondence of ComputedData for random windows",
             "text": "Theorem view_is_filter; filtered ComputedData compared with the model; oracle compares filtered run with the filter of the unfiltered run on the real code.",
